@@ -26,6 +26,25 @@ PROFILE = P.profile(p_stop_signal=0.5, gens=[1, 2, 3, 4], entry_w={"tree": 8, "h
 
 def gen(seed, tier):
     pl = P.gen_plan(seed, PROFILE, PROP)
+    if "minimize" in pl and seed % 5 == 0:
+        pl["minimize"]["maxfun"] = None
+        pl["minimize"]["maxiter"] = 0  # a legal limit that is falsy: zero metaepochs
+    if "levels" in pl and len(pl["levels"]) == 3 and seed % 11 == 0:
+        # EA -> CMA -> local on a plateau landscape, stopped by NoActiveNonrootDemes: local searches that finish
+        # without a single iteration
+        import random as _r
+
+        r2 = _r.Random(seed ^ 0x5C05)
+        minr = min(h - l for l, h in pl["box"])
+        pl["objective"] = {"kind": "stair", "center": [(l + h) / 2 for l, h in pl["box"]], "scale": minr / 6.0,
+                           "offset": 0.0, "sign": pl["objective"].get("sign", 1.0)}
+        pl["levels"][2] = {"engine": "local", "maxiter": None, "lsc": {"kind": "dont_stop"}}
+        pl["levels"][1]["lsc"] = {"kind": "metaepoch_limit", "limit": r2.randint(1, 2)}
+        pl["levels"][0]["lsc"] = {"kind": "metaepoch_limit", "limit": r2.randint(2, 4)}
+        pl["gsc"] = {"kind": "no_active_nonroot", "n": r2.randint(0, 2)}
+        pl["options"].pop("hibernation", None)
+        for st in pl["stacks"]:
+            st["layers"] = [x for x in st["layers"] if x["kind"] not in ("precision", "cutoff")]
     g = pl.get("gsc")
     if g and g["kind"] == "fitness_eval_limit" and seed % 2 == 0:
         import random
@@ -44,6 +63,16 @@ class C05Monitor(Monitor):
         self.flip = False
         self.after = {}  # id(deme) -> gen consults after t
         self.step_consults = {}  # id(deme) -> gen consults in the current step
+        self.last_ran = {}  # id(deme) -> last step in which it requested evaluations during the metaepoch phase
+        self.keep = []
+
+    def on_request(self, req):
+        w = self.w
+        if w.phase == "metaepoch" and req.deme >= 0:
+            d = w.deme_list[req.deme].obj
+            if id(d) not in self.last_ran:
+                self.keep.append(d)
+            self.last_ran[id(d)] = w.step
 
     def on_step_begin(self, tree):
         self.step_consults = {}
@@ -90,12 +119,22 @@ class C05Monitor(Monitor):
         if k == "all_stopped":
             return not any(d._active for d in demes)
         if k == "no_active_nonroot":
+            # "no active non-root deme for n metaepochs": idle time counted from the last metaepoch in which the
+            # deme really ran (observed by the simulator: it requested evaluations during the metaepoch phase).
+            # With hibernation demes skip metaepochs and pyhms' own bookkeeping (started_at + metaepoch_count) is
+            # the only definition there is, so it is used then.
+            hib = bool(w.plan.get("options", {}).get("hibernation"))
             step = tree.metaepoch_count
             for li in range(1, len(tree.levels)):
                 if len(tree.levels[li]) == 0:
                     return False
                 for d in tree.levels[li]:
-                    if d._active or step <= d._started_at + (len(d._history) - 1) + g["n"]:
+                    if d._active:
+                        return False
+                    last = d._started_at + (len(d._history) - 1)
+                    if not hib:
+                        last = max(self.last_ran.get(id(d), d._started_at), d._started_at)
+                    if step <= last + g["n"]:
                         return False
             return True
         if k == "dont_run":
